@@ -7,6 +7,8 @@
 (* harness, so what is validated is exactly what the rational model promises for every   *)
 (* terminating behaviour - and what float32 absorption could break: each assigned rank   *)
 (* in 1..dim, the group within its budget n*base, and none of the source's asserts hit.  *)
+(* Pipeline traces additionally carry, per group, used = the ranks the Sketchy optimizer built  *)
+(* from the allocation really holds (ranks are already <= dim here, so used = ranks).           *)
 (* An accepted event puts the Realloc variables into the terminal state it describes, so *)
 (* the module's own invariants RankRange / RankBudget are evaluated by TLC on it as well. *)
 EXTENDS Realloc, Json, IOUtils
@@ -22,6 +24,13 @@ Verdict(e) ==
   ELSE IF \E k \in 1..e.n : e.ranks[k] < 1 THEN "rank_below_one"
   ELSE IF ~RangeAt(e.ranks, e.n, e.dim) THEN "rank_above_dim"
   ELSE IF ~BudgetAt(e.ranks, e.n, Traces[tid].cfg.base) THEN "group_over_budget"
+  \* pipeline traces (cfg.pipeline): the allocation was handed to sketchy.Options(memory_alloc = ...) and
+  \* `used` is the rank every axis of the freshly initialised Sketchy state really has
+  ELSE IF Traces[tid].cfg.pipeline /\ Len(e.used) # e.n THEN "group_size_mismatch"
+  ELSE IF Traces[tid].cfg.pipeline /\ (\E k \in 1..e.n : e.used[k] # e.ranks[k])
+       THEN "allocation_not_honoured_by_sketchy"
+  ELSE IF Traces[tid].cfg.pipeline /\ ~BudgetAt(e.used, e.n, Traces[tid].cfg.base)
+       THEN "sketch_memory_above_uniform_allocation"
   ELSE "ok"
 
 TraceInit == /\ tid \in 1..Len(Traces) /\ l = 1 /\ bad = "ok"
